@@ -33,6 +33,7 @@ From crates/usvg/src/parser/{converter.rs, switch.rs, shapes.rs, svgtree/mod.rs,
 Every table is cut out of the current source by anchors; the model (Model/Converter.v) evaluates the
 tables, and Proofs/Converter.v has lock lemmas for the step orders.  A missing anchor is a broken tie.
 """
+import os
 import re
 
 PROPS = ['C11']
@@ -94,6 +95,122 @@ def coq_list(xs):
     return "[" + "; ".join(xs) + "]"
 
 
+PDIR = 'crates/usvg/src/parser'
+
+
+def fns_of(text):
+    """normalised text -> list of (name, body_start, body_end) for every `fn` (innermost first when searching)"""
+    out = []
+    for m in re.finditer(r"\bfn (\w+)\s*(?:<[^>(]*>)?\(", text):
+        # skip to the matching ')' then to the first '{' or ';'
+        i = m.end(); d = 1
+        while i < len(text) and d:
+            d += {'(': 1, ')': -1}.get(text[i], 0); i += 1
+        j = i
+        while j < len(text) and text[j] not in '{;':
+            j += 1
+        if j >= len(text) or text[j] == ';':
+            continue
+        k = j + 1; d = 1
+        while k < len(text) and d:
+            d += {'{': 1, '}': -1}.get(text[k], 0); k += 1
+        out.append((m.group(1), j, k))
+    return out
+
+# callee key -> regex of the call as written (file-dependent for the local names)
+def callee_patterns(stem):
+    q = lambda mod: r"(?<![\w:])(?:super::|crate::parser::)?%s::" % mod
+    pats = {
+        'converter::convert_element': (q('converter') if stem != 'converter' else r"(?<![\w:])") + r"convert_element\(",
+        'converter::convert_children': (q('converter') if stem != 'converter' else r"(?<![\w:])") + r"convert_children\(",
+        'converter::convert_clip_path_elements': (q('converter') if stem != 'converter' else r"(?<![\w:])") + r"convert_clip_path_elements\(",
+        'converter::convert_group': (q('converter') if stem != 'converter' else r"(?<![\w:])") + r"convert_group\(",
+        'converter::convert_element_impl': (q('converter') if stem != 'converter' else r"(?<![\w:])") + r"convert_element_impl\(",
+        'converter::convert_clip_path_elements_impl': (q('converter') if stem != 'converter' else r"(?<![\w:])") + r"convert_clip_path_elements_impl\(",
+        'converter::convert_path': (q('converter') if stem != 'converter' else r"(?<![\w:])") + r"convert_path\(",
+        'use_node::convert': q('use_node') + r"convert\(",
+        'use_node::convert_svg': (q('use_node') if stem != 'use_node' else r"(?<![\w:])") + r"convert_svg\(",
+        'switch::convert': q('switch') + r"convert\(",
+        'text::convert': q('text') + r"convert\(",
+        'image::convert': q('image') + r"convert\(",
+    }
+    if stem == 'text':
+        del pats['text::convert']       # inside parser/text.rs `text::` is crate::text (layout), not this module
+    if stem == 'use_node':
+        pats['use_node::convert_children'] = r"(?<![\w:])convert_children\("
+        pats['use_node::convert_svg_children'] = r"(?<![\w:])convert_svg_children\("
+    return pats
+
+UNGUARDED = {'converter::convert_group', 'converter::convert_element_impl', 'converter::convert_clip_path_elements_impl', 'converter::convert_path',
+             'use_node::convert', 'use_node::convert_svg', 'use_node::convert_children', 'use_node::convert_svg_children', 'switch::convert',
+             'text::convert', 'image::convert'}
+INTERNAL = {'converter::convert_element', 'converter::convert_children', 'converter::convert_clip_path_elements'}
+
+def first_arg(text, i):
+    d = 0; j = i
+    while j < len(text):
+        c = text[j]
+        if c in '([{': d += 1
+        elif c in ')]}':
+            if d == 0: break
+            d -= 1
+        elif c == ',' and d == 0: break
+        j += 1
+    return text[i:j].strip()
+
+def sites(api):
+    res = []; vis = []
+    files = sorted(f for f in os.listdir(os.path.join(os.environ.get('VERIF_REPO', '/repo'), PDIR)) if f.endswith('.rs'))
+    for f in files:
+        stem = f[:-3]
+        text = norm(api.rd(PDIR + '/' + f))
+        fl = fns_of(text)
+        def encl(p):
+            best = None
+            for name, a, b in fl:
+                if a < p < b and (best is None or a > best[1]):
+                    best = (name, a, b)
+            return best
+        for m in re.finditer(r"\.is_visible_element\(", text):
+            e = encl(m.start())
+            vis.append('%s::%s' % (stem, e[0] if e else '?'))
+        for key, pat in callee_patterns(stem).items():
+            for m in re.finditer(pat, text):
+                # a definition `fn convert_group(` is not a call
+                if re.search(r"\bfn $", text[max(0, m.start() - 3):m.start()]):
+                    continue
+                e = encl(m.start())
+                if e is None:
+                    res.append((key, '%s::?' % stem, '?', 'SG_None')); continue
+                name, a, b = e
+                before = text[a:m.start()]
+                subj = first_arg(text, m.end())
+                if key.endswith('_impl'):       # (tag_name, node, ..)
+                    subj = first_arg(text, m.end() + len(subj) + text[m.end() + len(subj):].index(',') + 1)
+                guard = 'SG_None'
+                if key in INTERNAL:
+                    guard = 'SG_Internal'
+                elif re.search(r"if !%s\.is_visible_element\((?:state\.)?opt\) \{ (?:return|continue)\b[^}]*; \}" % re.escape(subj), before):
+                    guard = 'SG_VisibleBefore'
+                elif subj == 'node' and ('%s::%s' % (stem, name)) in UNGUARDED and re.search(r"\bfn %s\s*(?:<[^>(]*>)?\( (?:tag_name: EId, )?node: SvgNode," % name, text[:a + 1][-600:] + ' ') \
+                        and not re.search(r"\blet (?:mut )?node\b|\bfor node in\b|\|node\||\|node,|, node\|", before):
+                    guard = 'SG_OwnNode'
+                elif subj == 'child' and stem == 'use_node' and name == 'convert' and key == 'use_node::convert_children':
+                    ok = re.search(r"let child = match node\.first_child\(\) \{ Some\(v\) => v, None => return, \};", before) and \
+                         re.search(r"let linked_to_symbol = child\.tag_name\(\) == Some\(EId::Symbol\);", before)
+                    k = before.rfind("if linked_to_symbol {")
+                    if ok and k >= 0:
+                        d = 0; mn = 1
+                        for ch in before[k:]:
+                            if ch == '{': d += 1
+                            elif ch == '}': d -= 1
+                            if d < mn and ch == '}': mn = d
+                        if mn >= 1:
+                            guard = 'SG_SymbolOfUse'
+                res.append((key, '%s::%s' % (stem, name), subj, guard))
+    return res, vis
+
+
 DEFAULTS = {
     'graphic_tags': 'list tag := [T_Circle; T_Ellipse; T_Image; T_Line; T_Path; T_Polygon; T_Polyline; T_Rect; T_Text; T_Use]',
     'structural_tags': 'list tag := [T_G; T_Switch; T_Svg]',
@@ -114,6 +231,8 @@ DEFAULTS = {
     'valid_ts_tests': 'list ts_test := [TT_IsValid; TT_DetRelTol]',
     'sys_lang_rules': 'list lang_rule := [LR_Exact; LR_PrefixDash]',
     'filter_facts': 'list filter_fact := [FF_NoBBoxReturnsEarly; FF_GenIdAfterRegionCheck]',
+    'call_sites': 'list (string * string * site_guard) := [("converter::convert_clip_path_elements", "clippath::convert", SG_Internal); ("converter::convert_element", "converter::convert_children", SG_Internal); ("converter::convert_children", "converter::convert_doc", SG_Internal); ("converter::convert_children", "converter::convert_doc", SG_Internal); ("converter::convert_children", "converter::convert_element_impl", SG_Internal); ("converter::convert_children", "converter::convert_element_impl", SG_Internal); ("converter::convert_group", "converter::convert_element", SG_VisibleBefore); ("converter::convert_group", "converter::convert_clip_path_elements", SG_VisibleBefore); ("converter::convert_element_impl", "converter::convert_element", SG_VisibleBefore); ("converter::convert_clip_path_elements_impl", "converter::convert_clip_path_elements", SG_VisibleBefore); ("converter::convert_path", "converter::convert_element_impl", SG_OwnNode); ("converter::convert_path", "converter::convert_clip_path_elements_impl", SG_OwnNode); ("use_node::convert", "converter::convert_element", SG_VisibleBefore); ("use_node::convert", "converter::convert_clip_path_elements", SG_VisibleBefore); ("use_node::convert_svg", "converter::convert_element_impl", SG_OwnNode); ("switch::convert", "converter::convert_element", SG_VisibleBefore); ("text::convert", "converter::convert_element_impl", SG_OwnNode); ("text::convert", "converter::convert_clip_path_elements_impl", SG_OwnNode); ("image::convert", "converter::convert_element_impl", SG_OwnNode); ("converter::convert_element", "filter::convert_image_inner", SG_Internal); ("converter::convert_children", "marker::resolve", SG_Internal); ("converter::convert_children", "mask::convert", SG_Internal); ("converter::convert_children", "paint_server::convert_pattern", SG_Internal); ("converter::convert_children", "paint_server::convert_pattern", SG_Internal); ("converter::convert_element", "switch::convert", SG_Internal); ("converter::convert_group", "switch::convert", SG_OwnNode); ("converter::convert_children", "use_node::convert_svg_children", SG_Internal); ("converter::convert_children", "use_node::convert_svg_children", SG_Internal); ("converter::convert_children", "use_node::convert_children", SG_Internal); ("converter::convert_clip_path_elements", "use_node::convert_children", SG_Internal); ("converter::convert_group", "use_node::convert", SG_OwnNode); ("converter::convert_group", "use_node::convert", SG_OwnNode); ("converter::convert_group", "use_node::convert_children", SG_OwnNode); ("use_node::convert_children", "use_node::convert", SG_SymbolOfUse); ("use_node::convert_children", "use_node::convert", SG_SymbolOfUse); ("use_node::convert_children", "use_node::convert", SG_OwnNode); ("use_node::convert_children", "use_node::convert", SG_OwnNode); ("use_node::convert_svg_children", "use_node::convert_svg", SG_OwnNode); ("use_node::convert_svg_children", "use_node::convert_svg", SG_OwnNode)]',
+    'visible_test_sites': 'list string := ["converter::convert_doc"; "converter::convert_element"; "converter::convert_clip_path_elements"; "text::collect_text_chunks_impl"]',
     'mask_steps': 'list mask_step := [MS_TagCheck; MS_Recursive; MS_CacheLookup; MS_Rect; MS_UnitsBBox; MS_GenId; MS_MaskAllInsert; MS_Linked; MS_ContentUnitsBBox; MS_Children; MS_Insert]',
     'clip_steps': 'list clip_step := [CS_TagCheck; CS_Recursive; CS_Transform; CS_CacheLookup; CS_UnitsBBox; CS_Linked; CS_GenId; CS_Children; CS_InsertIfChildren]',
     'special_attr_lookups': 'list (special_attr * lookup_kind) := [(SA_Style, LK_NoNamespace); (SA_Id, LK_NoNamespace); (SA_Class, LK_NoNamespace)]',
@@ -562,6 +681,18 @@ def extract(api, src, put, group):
         need(r"chain \.iter\(\) \.all\(\|n\| n\.attribute\(AId::ClipPathUnits\) != Some\(Units::ObjectBoundingBox\)\)", body_of(api, cp, 'is_cacheable'),
              "clippath.rs is_cacheable")
     group(sec_mask_clip)
+
+    def sec_sites():  # every call site of a function that converts an element, with its guard
+        res, vis = sites(api)
+        if not res:
+            raise Miss("call sites: none found")
+        put('call_sites', 'list (string * string * site_guard)',
+            coq_list(['("%s", "%s", %s)' % (k, e, g) for k, e, _, g in res]))
+        put('visible_test_sites', 'list string', coq_list(['"%s"' % v for v in vis]))
+        bad = [(k, e, sj) for k, e, sj, g in res if g == 'SG_None']
+        if bad:
+            raise Miss("unguarded route to content conversion: %s" % "; ".join("%s called in %s on `%s`" % b for b in bad))
+    group(sec_sites)
 
     def sec_sys_lang():  # is_valid_sys_lang
         b = body_of(api, sw, 'is_valid_sys_lang')
